@@ -483,7 +483,7 @@ def run_js_structs(prop):
     import jsfront
     out = {"results": [], "crate_of": {}, "inconclusive": [], "violations": [], "known": [], "coverage": {}}
     replay_dir = os.path.join(VERIF, "replays", prop)
-    mods = [bridgegen.m0_js()]
+    mods = [bridgegen.m0_js()] + [bridgegen.js_random_module(seed(), i) for i in range(8 if tier() == "thorough" else 2)]
     facts = 0
     n_static = 0
     programs = []
